@@ -41,7 +41,9 @@ def build(case):
         script = script + [[x.replace("{L}", f"s{i}") if isinstance(x, str) else x for x in op] for op in PROBE] + [["quit"]]
         sessions.append({"label": f"s{i}", "script": script, "prefix": prefix, "start": 0.0 if i == 0 else 0.0007 * i, "data_timeout": 500.0, "reply_timeout": 2000.0})
     faults = []
-    if case.get("k") is not None:
+    if case.get("k") is not None and case.get("burst"):
+        faults.append({"at": ["fsfrom", case["k"]], "session": "s0", "errno": case.get("err", errno.EIO)})
+    elif case.get("k") is not None:
         faults.append({"at": ["fslabel", case["k"]], "session": "s0", "errno": case.get("err", errno.EIO)})
     if case.get("allop"):
         faults.append({"at": ["fsall", case["allop"]], "session": "s0", "errno": case.get("err", errno.EIO)})
@@ -241,7 +243,7 @@ def selftest_cases(n):
     names = sorted(corpus.scripts())
     out = []
     for i in range(n):
-        c = {"script": r.choice(names), "seed": r.randrange(10**6), "k": r.randrange(1, 50), "err": r.choice(ERRS)}
+        c = {"script": r.choice(names), "seed": r.randrange(10**6), "k": r.randrange(1, 50), "err": r.choice(ERRS), "burst": r.random() < 0.3}
         if r.random() < 0.4:
             c["others"] = [r.choice(names)]
         out.append(c)
@@ -284,6 +286,8 @@ def main(argv=None):
                 errs = ERRS if not quick else [ERRS[(k + case["seed"]) % len(ERRS)]]
                 for e in errs:
                     plan.append({"script": case["script"], "seed": case["seed"], "k": k, "err": e, "others": case["others"], "others_ref": res["others"]})
+                # repeated faults: every backend call of the session from the k-th on fails
+                plan.append({"script": case["script"], "seed": case["seed"], "k": k, "burst": True, "err": errs[0], "others": case["others"], "others_ref": res["others"]})
             for op in simfs.OPS:
                 plan.append({"script": case["script"], "seed": case["seed"], "allop": op, "err": r.choice(ERRS), "others": case["others"], "others_ref": res["others"]})
         total = len(plan)
